@@ -51,7 +51,7 @@ func init() {
 		Rule: "leg A: BFS over abstract states of each of the 6 byte machines (single and multi-document), 256 bytes + 3 macros per state, reader byte-wise + []byte entry + EOF + one injected read error per chunk boundary; " +
 			"leg B: all token sequences up to length L over a 40-token alphabet into jp.ParseString/MustParseString/NewScript/NewFilter/MustParseEquation; leg C: asm function x arity 0..3 x argument kinds; leg D: trees x target types into oj.Unmarshal/sen.Unmarshal/alt.Recompose; " +
 			"distinct_nontrivial = byte-machine states + inputs on which the entry point returned an error (malformed input actually reached the error path)",
-		Assumptions: []string{"a violation is a panic escaping an entry point with an error result, a runtime.Error panic from a Must*/NewPlan variant, a fatal abort or no progress for 180 s (DESIGN.md §2.5)",
+		Assumptions: []string{"a violation is a panic escaping an entry point with an error result, a runtime.Error panic from a Must*/NewPlan variant, a fatal abort or no progress for 120 s (DESIGN.md §2.5)",
 			"errors whose text starts with 'runtime error:' (faults masked by a recover wrapper) are counted, not violations"},
 		Bound: func(tier string) string {
 			if tier == "thorough" {
@@ -112,7 +112,7 @@ func legA(c *core.Ctx) {
 	all := mach.All()
 	m := all[c.Shard%len(all)]
 	cfg := mach.Config{Multi: c.Shard >= len(all)}
-	e := &bytemc.Explorer{M: m, Cfg: cfg}
+	e := &bytemc.Explorer{M: m, Cfg: cfg, Alt: 3}
 	if m.Strict {
 		e.D = c.Pick(3, 4)
 	} else {
@@ -184,6 +184,8 @@ func legA(c *core.Ctx) {
 	c.Add("transitions", e.NTrans)
 	c.Add("traces_validated_against_impl", e.NTrans)
 	c.Add("distinct_nontrivial", int64(len(e.States)))
+	c.Add("merge_audit_runs", e.Audits)
+	c.Add("merge_audit_mismatches", e.AuditMismatches)
 	if len(e.States) > 10 {
 		s := e.States[len(e.States)/2]
 		c.Sample(map[string]any{"leg": "A", "machine": m.Name, "multi": cfg.Multi, "witness": fmt.Sprintf("%q", s.Witness), "state": s.Key})
@@ -210,6 +212,7 @@ var jpEntries = []jpEntry{
 }
 
 func tryJP(c *core.Ctx, s string) {
+	c.Case(func() string { return fmt.Sprintf("jp parse entry points on %q", s) })
 	for _, e := range jpEntries {
 		var err error
 		var pv any
@@ -370,6 +373,7 @@ func legC(c *core.Ctx) {
 	}
 	try := func(name string, av []any) {
 		plan := append([]any{name}, gens.Clone(av).([]any)...)
+		c.Case(func() string { return "asm plan " + sen.String(plan) })
 		err, pv := execPlan(plan)
 		c.Eval()
 		if err != nil {
@@ -474,6 +478,36 @@ func legD(c *core.Ctx) {
 		call func(tree any, text []byte, vp any) error
 	}
 	entries := []entry{
+		{"alt.MustRecompose", func(tree any, text []byte, vp any) (err error) {
+			defer func() { // a Must variant may panic, but only with an error that is not a runtime fault
+				if p := recover(); p != nil {
+					if _, fault := panicKind(p); fault {
+						panic(p)
+					}
+					err, _ = p.(error)
+					if err == nil {
+						err = fmt.Errorf("%v", p)
+					}
+				}
+			}()
+			alt.MustRecompose(gens.Clone(tree), vp)
+			return nil
+		}},
+		{"alt.Recomposer.MustRecompose", func(tree any, text []byte, vp any) (err error) {
+			defer func() {
+				if p := recover(); p != nil {
+					if _, fault := panicKind(p); fault {
+						panic(p)
+					}
+					err, _ = p.(error)
+					if err == nil {
+						err = fmt.Errorf("%v", p)
+					}
+				}
+			}()
+			alt.MustNewRecomposer("^", nil).MustRecompose(gens.Clone(tree), vp)
+			return nil
+		}},
 		{"oj.Unmarshal", func(tree any, text []byte, vp any) error { return oj.Unmarshal(text, vp) }},
 		{"sen.Unmarshal", func(tree any, text []byte, vp any) error { return sen.Unmarshal(text, vp) }},
 		{"alt.Recompose", func(tree any, text []byte, vp any) error { _, err := alt.Recompose(gens.Clone(tree), vp); return err }},
@@ -487,12 +521,13 @@ func legD(c *core.Ctx) {
 		}},
 	}
 	// struct-shaped keys so fields are actually hit
-	for _, ks := range [][]string{keys, {"a", "b", "c"}, {"e", "f", "g"}, {"h", "i", "j"}, {"^", "d", "m"}} {
+	for _, ks := range [][]string{keys, {"a", "b", "c"}, {"e", "f", "g"}, {"h", "i", "j"}, {"^", "d", "m"}, {"", "a", "^"}} {
 		gens.Trees(c.Pick(3, 4), leaves, ks, func(tree any) bool {
 			if c.Expired("C06 unmarshal") {
 				return false
 			}
 			text := []byte(oj.JSON(tree))
+			c.Case(func() string { return "unmarshal/recompose of " + string(text) })
 			for _, tn := range names {
 				for _, e := range entries {
 					var pv any
